@@ -29,8 +29,12 @@ ASSUMPTIONS = [
     'md5 is a Section variable of the Coq development; for the correspondence it is instantiated by the table of '
     '(input, hashlib.md5 digest) pairs observed during the run; "exactly when" is modulo md5 collisions',
     'the rewriting of the argument string is modelled at character level (re.sub with \\b at both ends, Memo.Model.resub); '
-    'two helpers of the code are oracles of that model, evaluated by the run on the real code: the strings '
-    'FlowIR.discover_reference_strings finds in the arguments and the order in which the references are visited',
+    'one helper of the code is an oracle of that model, evaluated by the run on the real code: the strings '
+    'FlowIR.discover_reference_strings finds in the arguments; the order in which the references are visited is computed by the model '
+    '(Memo.Model.code_order: direct references first, then stable by decreasing length of the absolute string) and compared with the '
+    'order the run derives from the real dataReferences',
+    'descriptions that Experiment.validateExperiment rejects are not observed (counted as rejected): e.g. the command-line '
+    'validation rejects a consumer whose short reference is listed before the longer reference it is a tail of',
     'no custom embeddingFunction (user-provided JavaScript fuzzy hash); no loop references; references to '
     'application dependencies are not generated',
     'file contents are short ASCII texts; files are read completely by md5_of_file',
@@ -1228,7 +1232,11 @@ def run(ctx):
                 'data files, data folders, files and folders of producers, three backends, paths that are files / missing / folders) '
                 'and variants differing in exactly one aspect (executable, literal argument, image, reference method, contents of an '
                 'input, contents of a producer-made file, a missing input | component name, stage indices, modification times, '
-                'instance location, backend kind with the same image); producer chains of length 1-3; plus random nested '
+                'instance location, backend kind with the same image; a rename sometimes makes the name of another component a tail of '
+                'the new one: pre-gen next to gen); producer chains of length 1-3; consumers of two references of which one is a '
+                'word-boundary-delimited tail of the other (producers gen / pre-gen / pre.gen, file outer/gen/out.txt next to '
+                'gen/out.txt, folders, same name in two stages; relative and absolute spellings, either listing order) with the same '
+                'work under other producer names as a variant; plus random nested '
                 'dictionaries for the traversal alone. non-trivial world = some component has a hash and consumes a file or a '
                 'producer; distinct by (world description, aspect)')
     families = []
